@@ -770,8 +770,14 @@ func (repo *Repository) MarkHeaderInvalid(ctx context.Context, hash bitcoin.Hash
 		return nil // not found
 	}
 
+	trimmedHashes := repo.branches.hashesFrom(branch, height)
 	if err := repo.branches.Trim(branch, height); err != nil {
 		return errors.Wrap(err, "trim")
+	}
+
+	// The trimmed headers are no longer known, so remove them from the height lookup.
+	for _, trimmedHash := range trimmedHashes {
+		delete(repo.heights, trimmedHash)
 	}
 
 	longest := repo.branches.Longest()
